@@ -46,6 +46,8 @@ ASSUMPTIONS = [
     "applied to slinear/lagrange2/lagrange3/cubic/scipy_*/bsplines only; for akima J.delta is compared with the complex "
     "step imag(interp(values + i*h*delta))/h (the akima code is complex-safe in the table values: upstream checks its "
     "partials the same way; evaluate_spline takes complex values, the components are run in complex-step mode); "
+    "a table (or query point) where conj-symmetry of the complex step fails (an abs() argument of the Akima weights is "
+    "exactly zero: the step direction decides the branch) is counted as a kink and not judged; "
     "tables with two exactly equal consecutive slopes (constant / linear data) are discarded for the akima d/dvalues "
     "clause: both Akima weights vanish there and the scheme is not differentiable in the table values (directional "
     "derivatives exist but are not linear in the direction), so no Jacobian can satisfy the property",
@@ -233,6 +235,20 @@ def check_table(case, res, cls):
                                                                    else xc[j:j + 1])).ravel()[0] for j in range(m)])
                     ref[:, k] = out.imag / h
                     rtol[:, k] = tolk[k]
+                    if 'akima' in name:
+                        # kink test: for a differentiable interpolant f(x - ih) is the conjugate of f(x + ih)
+                        xm = np.array(points, dtype=complex)
+                        xm[:, k] -= 1j * h
+                        if mode == 'vector':
+                            outm = np.asarray(obj.interpolate(xm[:, 0].copy() if dim == 1 else xm)).ravel()
+                        else:
+                            outm = np.array([np.asarray(obj.interpolate(xm[j:j + 1, 0].copy() if dim == 1
+                                                                        else xm[j:j + 1])).ravel()[0]
+                                             for j in range(m)])
+                        kink = ~(np.abs(out.imag + outm.imag) / h <= tolk[k])
+                        if kink.any():
+                            cls.append('cs_kink')
+                            ref[kink, k] = np.nan
                 else:
                     cls.append('oracle:fd')
                     for j, p in enumerate(points):
@@ -313,11 +329,16 @@ def judge_values(res, cls, label, method, evalf, J0, V, D, A, Fv, Fd, evalc):
                      f"{label} {method}: output {j}: interp(V+D)-interp(V) = {(f1 - f0)[j]!r} but (d/dvalues).D = "
                      f"{JD[j]!r} (|diff| {err[j]:.3g} > tol {tol:.3g})")
         return judged
-    cls.append('oracle:cs-values')
     h = 1e-30
-    out = np.asarray(evalc(V.astype(complex) + 1j * h * D)).ravel()
-    est = out.imag / h
+    est = np.asarray(evalc(V.astype(complex) + 1j * h * D)).ravel().imag / h
+    est_m = -np.asarray(evalc(V.astype(complex) - 1j * h * D)).ravel().imag / h
     tol = TOL_K * EPS * A * Fd
+    if not (np.abs(est - est_m) <= tol).all():
+        # An abs() argument of the Akima weights is exactly zero at this table: the complex step takes the side
+        # given by the sign of the imaginary part, i.e. the value is not differentiable in this direction.
+        cls.append('cs_values_kink')
+        return judged
+    cls.append('oracle:cs-values')
     err = np.abs(est - JD)
     _stat(f"csv/{label}/{method}", err, tol)
     judged += err.size
